@@ -66,7 +66,9 @@ def run(tier, replay=None):
         cases += res.replays
     # scale: the model bounds text lengths at 2-3 classes; a few records of the same shape with fields of 300, 5 000
     # and 70 000 characters (buffers, length fields) are added to the replay
-    base = dict(cases[0])
+    # (the all-default record: every optional member present)
+    base = dict(next(c for c in cases if all(c[f] == ["plain"] for f in ("message", "target", "module_path", "file", "thread"))
+                     and c["mdc"] == [] and c["line"] == 7 and c["level"] == 3))
     mix = ["plain", "quote", "b3", "lf", "plain", "bslash", "b4", "plain", "ctl", "b2"]
     for n in (255, 256, 257, 5000, 65535, 65536, 70001):
         long_text = [mix[k % len(mix)] for k in range(n)]
